@@ -254,9 +254,21 @@ def _gridcase(case):
                 L.update(grp)
             man = LayoutSwapper(comm, [lp, lv, lpol], [nprocs, nprocs[0], nprocs[1]], eta, 'mode_solve')
             start = 'mode_solve'
-        g = Grid(eta, [None] * len(shape), man, start, comm)
+        g = Grid(eta, [None] * len(shape), man, start, comm, allocateSaveMemory=True)
         g.getAllData()[:] = 0
         blocks = _grid_rank_checks(g, list(L), shape, eta, problems)
+        # accessors must follow the layout also when it is reached through save / restore
+        names = list(L)
+        g.setLayout(names[0])
+        g.saveGridValues()
+        g.setLayout(names[-1])
+        g.restoreGridValues()
+        if g.currentLayout != names[0]:
+            problems.append('currentLayout-after-restore')
+        else:
+            p2 = []
+            _grid_rank_checks(g, [names[0]], shape, eta, p2)
+            problems.extend(x + '-after-restore' for x in p2)
         return problems, blocks, list(man.mpiCoords) if hasattr(man, 'mpiCoords') else None
     seen = {}
     try:
